@@ -225,9 +225,8 @@ pub(crate) fn add_int_to_float<W, R, T>(
         XFuncSpec::new(&[&X_INT], X_FLOAT.clone()),
         ufunc!(Int, |a: &LazyBigint, rt: &RTCell<W, R, T>| {
             let Some(ret) = a.to_f64() else {return Ok(Err(ManagedXError::new("Integer too large to convert to float", rt.clone())?))};
-            Ok(Ok(XValue::Float(
-                ret
-            )))
+            // integers beyond the float range convert to infinity, which is not a float value of the language
+            XValue::float(ret, rt)
         }),
     )
 }
